@@ -241,7 +241,7 @@ Proof.
       destruct (Hp H1) as [x [cur' [E Hs]]]. subst cur.
       assert (Hx : (x =? 13) = false) by (unfold solid in Hs; lia).
       cbn [drop_cr]. rewrite Hx. cbn [map].
-      assert (Hr : r <> []) by (destruct r; [cbn in H2; discriminate|discriminate]).
+      assert (Hr : r <> []) by (destruct r; [cbn [clean_aux] in H2; discriminate|discriminate]).
       pose proof (split_lines_aux_nonnil r [] (or_introl Hr)) as Hne.
       specialize (IH [] (solid 10) H2).
       assert (Hs10 : solid 10 = true -> exists c cur', @nil Z = c :: cur' /\ solid c = true)
@@ -548,6 +548,1319 @@ Proof.
     rewrite (take_while_app is_digit (chars_of_uint u) rest (chars_digits u))
       by (destruct rest; [exact I|apply Hf]).
     rewrite (outside1 _ Hf). rewrite Ed. cbn [app orb].
-    replace (45 =? 48) with false by reflexivity. cbn [andb].
+    replace (45 =? 48) with false by exact eq_refl. cbn [andb].
     rewrite <- Ed, uint_of_chars, Hz. reflexivity.
 Qed.
+
+(* ------------------------------------------------------------------------------------------ *)
+(* every grammar text starts with a term-start character                                       *)
+Definition starts (s : list Z) : Prop := match s with c :: _ => tstart c = true | [] => False end.
+
+Lemma starts_app s r : starts s -> starts (s ++ r).
+Proof. destruct s; [intros []|]. cbn [app starts]. auto. Qed.
+
+Lemma starts_int z : starts (int_text z).
+Proof.
+  unfold int_text. destruct (to_int_cases z) as [u [Hu [E|E]]]; rewrite E.
+  - destruct (chars_nonnil u Hu) as [d [ds [Ed Hd]]]. rewrite Ed. cbn [starts]. cc.
+  - cbn [starts]. reflexivity.
+Qed.
+Lemma starts_ident n : wf_ident n = true -> starts n.
+Proof.
+  intros H. destruct (wf_ident_inv n H) as (c & body & q & b & En & Hc & _). subst n. cbn [starts]. cc.
+Qed.
+Lemma starts_name n : wf_tuple_name n = true -> starts n.
+Proof.
+  intros H. destruct (wf_tuple_name_inv n H) as (c & body & En & Hc & _). subst n. cbn [starts]. cc.
+Qed.
+Lemma starts_topen name : wf_name_opt name -> starts (topen name).
+Proof.
+  destruct name as [n|]; cbn [wf_name_opt topen]; intros H.
+  - apply starts_app, starts_name, H.
+  - reflexivity.
+Qed.
+
+Lemma g_starts :
+  (forall t s, gterm t s -> starts s) /\
+  (forall f fs s, gfields f fs s -> starts s) /\
+  (forall f s, gfield f s -> starts s) /\
+  (forall t ts s, gchain t ts s -> starts s).
+Proof.
+  apply g_mutind; intros.
+  - apply starts_int.
+  - apply starts_ident; assumption.
+  - reflexivity.
+  - reflexivity.
+  - apply starts_name; assumption.
+  - apply starts_app, starts_topen. assumption.
+  - assumption.
+  - apply starts_app. assumption.
+  - assumption.
+  - apply starts_app, starts_ident. assumption.
+  - assumption.
+  - apply starts_app. assumption.
+Qed.
+
+(* ------------------------------------------------------------------------------------------ *)
+(* S4a. grammar texts are clean                                                                *)
+Lemma solid_int z : int_text z <> [] /\ forallb solid (int_text z) = true.
+Proof.
+  assert (Hd : forall u, forallb solid (chars_of_uint u) = true)
+    by (induction u; cbn [chars_of_uint forallb]; try rewrite IHu; reflexivity).
+  unfold int_text. destruct (to_int_cases z) as [u [Hu [E|E]]]; rewrite E.
+  - destruct (chars_nonnil u Hu) as [d [ds [Ed _]]]. split; [rewrite Ed; discriminate|apply Hd].
+  - split; [discriminate|]. cbn [forallb]. rewrite Hd. reflexivity.
+Qed.
+
+Lemma word_solid body : forallb is_word body = true -> forallb solid body = true.
+Proof.
+  induction body as [|c r IH]; [reflexivity|]. cbn [forallb]. intros H.
+  apply andb_true_iff in H. destruct H as [Hc Hr]. rewrite (IH Hr).
+  assert (E : solid c = true) by cc. rewrite E. reflexivity.
+Qed.
+
+Lemma solid_ident n : wf_ident n = true -> n <> [] /\ forallb solid n = true.
+Proof.
+  intros H. destruct (wf_ident_inv n H) as (c & body & q & b & En & Hc & Hbody & Hq & Hb). subst n.
+  split; [discriminate|]. cbn [forallb]. rewrite !forallb_app, (word_solid _ Hbody).
+  assert (E : solid c = true) by cc. rewrite E.
+  destruct Hq as [Hq|Hq]; destruct Hb as [Hb|Hb]; subst q b; reflexivity.
+Qed.
+
+Lemma solid_name n : wf_tuple_name n = true -> n <> [] /\ forallb solid n = true.
+Proof.
+  intros H. destruct (wf_tuple_name_inv n H) as (c & body & En & Hc & Hbody). subst n.
+  split; [discriminate|]. cbn [forallb]. rewrite (word_solid _ Hbody).
+  assert (E : solid c = true) by cc. rewrite E. reflexivity.
+Qed.
+
+Lemma escape_single_no_lf s : Forall (fun c => c <> 10) (escape_single s).
+Proof.
+  induction s as [|c t IH]; [constructor|]. cbn [escape_single]. apply Forall_app. split; [|exact IH].
+  destruct (esc_single_char_spec c)
+    as [[Hc He]|[[Hc He]|[[Hc He]|[[Hc He]|[[Hc He]|[[Hc He]|[H92 [H34 [H123 He]]]]]]]]];
+    rewrite He; repeat constructor; try lia.
+  intros E10. subst c. vm_compute in He. discriminate.
+Qed.
+
+Lemma cl_str s p : cl p (34 :: escape_single s ++ [34]) true.
+Proof.
+  change true with (solid 34) at 1.
+  rewrite <- (lastsolid_app p (34 :: escape_single s) 34).
+  change (34 :: escape_single s ++ [34]) with ((34 :: escape_single s) ++ [34]).
+  apply cl_text. apply Forall_app. split.
+  - constructor; [lia|apply escape_single_no_lf].
+  - repeat constructor. lia.
+Qed.
+
+Lemma cl_topen name p : wf_name_opt name -> cl p (topen name) true.
+Proof.
+  destruct name as [n|]; cbn [wf_name_opt topen]; intros H.
+  - destruct (solid_name n H) as [Hne Hs]. apply cl_solid.
+    + destruct n; [congruence|discriminate].
+    + rewrite forallb_app, Hs. reflexivity.
+  - apply cl_solid; [discriminate|reflexivity].
+Qed.
+
+Lemma gws_cl w : gws w -> exists q, cl true w q.
+Proof.
+  intros [E|[i E]]; subst w.
+  - exists true. constructor.
+  - exists false. apply cl_nl.
+Qed.
+Lemma gsep_cl w : gsep w -> cl true w false.
+Proof. intros [E|[i E]]; subst w; [apply cl_space|apply cl_nl]. Qed.
+Lemma gcsep_cl w : gcsep w -> cl true w false.
+Proof.
+  intros [E|[i E]]; subst w; [apply cl_space|].
+  eapply cl_app; [apply cl_nl|].
+  change false with (lastsolid false [126; 62; 32]) at 2. apply cl_text. repeat constructor; lia.
+Qed.
+Lemma oc_cl oc : (oc = [] \/ oc = [44]) -> cl true oc true.
+Proof. intros [E|E]; subst oc; [constructor|]. apply cl_solid; [discriminate|reflexivity]. Qed.
+
+Lemma g_clean :
+  (forall t s, gterm t s -> forall p, cl p s true) /\
+  (forall f fs s, gfields f fs s -> forall p, cl p s true) /\
+  (forall f s, gfield f s -> forall p, cl p s true) /\
+  (forall t ts s, gchain t ts s -> forall p, cl p s true).
+Proof.
+  apply g_mutind.
+  - intros z p. apply cl_solid; apply solid_int.
+  - intros n H p. apply cl_solid; apply solid_ident; exact H.
+  - intros s p. apply cl_str.
+  - intros p. apply cl_solid; [discriminate|reflexivity].
+  - intros n H p. apply cl_solid; apply solid_name; exact H.
+  - intros name f fs w1 body oc w2 Hn Hw1 Hw2 Hoc _ IH p.
+    destruct (gws_cl w1 Hw1) as [q1 H1]. destruct (gws_cl w2 Hw2) as [q2 H2].
+    eapply cl_app; [apply cl_topen; exact Hn|].
+    eapply cl_app; [exact H1|].
+    eapply cl_app; [apply IH|].
+    eapply cl_app; [apply oc_cl; exact Hoc|].
+    eapply cl_app; [exact H2|].
+    apply cl_solid; [discriminate|reflexivity].
+  - intros f s _ IH p. apply IH.
+  - intros f f' fs s sep s' _ IH1 Hsep _ IH2 p.
+    eapply cl_app; [apply IH1|].
+    change (44 :: sep ++ s') with ([44] ++ sep ++ s').
+    eapply cl_app; [apply (cl_solid [44] true); [discriminate|reflexivity]|].
+    eapply cl_app; [apply gsep_cl; exact Hsep|apply IH2].
+  - intros t ts s _ IH p. apply IH.
+  - intros n t ts s Hn _ IH p.
+    eapply cl_app; [apply cl_solid; apply solid_ident; exact Hn|].
+    change (58 :: 32 :: s) with ([58] ++ [32] ++ s).
+    eapply cl_app; [apply (cl_solid [58] true); [discriminate|reflexivity]|].
+    eapply cl_app; [apply cl_space|apply IH].
+  - intros t s _ IH p. apply IH.
+  - intros t t' ts s sep s' _ IH1 Hsep _ IH2 p.
+    eapply cl_app; [apply IH1|].
+    eapply cl_app; [apply gcsep_cl; exact Hsep|apply IH2].
+Qed.
+
+Lemma gterm_strip t s : gterm t s -> strip_trailing_whitespace s = s.
+Proof. intros H. apply cl_strip. apply (proj1 g_clean t s H). Qed.
+Lemma gchain_strip t ts s : gchain t ts s -> strip_trailing_whitespace s = s.
+Proof. intros H. apply cl_strip. apply (proj2 (proj2 (proj2 g_clean)) t ts s H). Qed.
+
+(* ========================================================================================== *)
+(* S3. the parser is complete on the grammar                                                   *)
+(* ========================================================================================== *)
+
+(* what may follow a term / a chain / a field list *)
+Definition first_in (rest : list Z) : Prop :=
+  match rest with [] => True | x :: _ => x = 32 \/ x = 10 \/ x = 44 \/ x = 93 end.
+Definition tfollow (rest : list Z) : Prop :=
+  first_in rest /\ match skip_ws rest with y :: _ => y <> 40 | [] => True end.
+Definition cfollow (rest : list Z) : Prop :=
+  match rest with
+  | [] => True
+  | x :: r => x = 44 \/ x = 93 \/
+              (x = 10 /\ exists i tail, r = repeat 32 i ++ tail /\
+                                        match tail with [] => True | y :: _ => y = 93 end)
+  end.
+Definition fsfollow (rest : list Z) : Prop :=
+  exists oc w2 rest', rest = oc ++ w2 ++ 93 :: rest' /\ (oc = [] \/ oc = [44]) /\ gws w2.
+
+Lemma skip_ws_stop s : stops is_msp s -> skip_ws s = s.
+Proof.
+  intros H. unfold skip_ws. pose proof (take_while_app is_msp [] s eq_refl H) as E.
+  cbn [app] in E. rewrite E. reflexivity.
+Qed.
+Lemma skip_ws_app w r : forallb is_msp w = true -> stops is_msp r -> skip_ws (w ++ r) = r.
+Proof. intros Hw H. unfold skip_ws. rewrite (take_while_app is_msp w r Hw H). reflexivity. Qed.
+
+Lemma msp_spaces i : forallb is_msp (repeat 32 i) = true.
+Proof. induction i as [|i IH]; [reflexivity|]. cbn [repeat forallb]. rewrite IH. reflexivity. Qed.
+Lemma msp_nl i : forallb is_msp (nl i) = true.
+Proof. unfold nl. cbn [forallb]. rewrite msp_spaces. reflexivity. Qed.
+Lemma msp_gws w : gws w -> forallb is_msp w = true.
+Proof. intros [E|[i E]]; subst w; [reflexivity|apply msp_nl]. Qed.
+Lemma msp_gsep w : gsep w -> forallb is_msp w = true.
+Proof. intros [E|[i E]]; subst w; [reflexivity|apply msp_nl]. Qed.
+
+Lemma starts_stops s r : starts s -> stops is_msp (s ++ r).
+Proof. destruct s as [|c s]; [intros []|]. cbn [starts app stops]. intros H. cc. Qed.
+
+Lemma cfollow_tfollow rest : cfollow rest -> tfollow rest.
+Proof.
+  destruct rest as [|x r]; intros H.
+  - split; exact I.
+  - cbn [cfollow] in H. destruct H as [E|[E|[E [i [tail [Er Ht]]]]]]; subst x.
+    + split; [cbn [first_in]; lia|]. rewrite skip_ws_stop by exact eq_refl. lia.
+    + split; [cbn [first_in]; lia|]. rewrite skip_ws_stop by exact eq_refl. lia.
+    + split; [cbn [first_in]; lia|]. subst r.
+      change (10 :: repeat 32 i ++ tail) with (nl i ++ tail).
+      rewrite skip_ws_app; [|apply msp_nl|destruct tail; [exact I|subst; reflexivity]].
+      destruct tail; [exact I|subst; lia].
+Qed.
+
+Lemma tfollow_csep sep s rest : gcsep sep -> starts s -> tfollow (sep ++ s ++ rest).
+Proof.
+  intros [E|[i E]] Hs; subst sep.
+  - split; [cbn [app first_in]; lia|].
+    change ([32] ++ s ++ rest) with ([32] ++ (s ++ rest)).
+    rewrite skip_ws_app; [|reflexivity|apply starts_stops; exact Hs].
+    destruct s as [|c s]; [destruct Hs|]. cbn [starts] in Hs. cbn [app]. cc.
+  - split; [cbn [nl app first_in]; lia|].
+    rewrite <- app_assoc. rewrite skip_ws_app; [|apply msp_nl|reflexivity]. cbn [app]. lia.
+Qed.
+
+Lemma fsfollow_cfollow rest : fsfollow rest -> cfollow rest.
+Proof.
+  intros (oc & w2 & rest' & E & [Hoc|Hoc] & [Hw|[i Hw]]); subst; cbn [app cfollow nl]; try lia.
+  right. right. split; [reflexivity|]. exists i, (93 :: rest'). split; reflexivity.
+Qed.
+
+Lemma tfollow_idfollow rest : tfollow rest -> idfollow rest.
+Proof. intros [H _]. destruct rest as [|x r]; [exact I|]. cbn [first_in] in H. cbn [idfollow]. cc. Qed.
+Lemma tfollow_intfollow rest : tfollow rest -> intfollow rest.
+Proof. intros [H _]. destruct rest as [|x r]; [exact I|]. cbn [first_in] in H. cbn [intfollow]. cc. Qed.
+Lemma tfollow_word rest : tfollow rest -> stops is_word rest.
+Proof. intros [H _]. destruct rest as [|x r]; [exact I|]. cbn [first_in] in H. cbn [stops]. cc. Qed.
+
+(* ---- dispatch of p_term on the first character ---- *)
+Lemma p_term_rbracket fuel rest : p_term fuel (93 :: rest) = None.
+Proof. destruct fuel; reflexivity. Qed.
+
+Lemma p_term_bracket f r :
+  p_term (S f) (91 :: r) =
+  match p_bracket_body (p_term f) r with Some (fs, rest) => Some (FTuple None fs, rest) | None => None end.
+Proof. reflexivity. Qed.
+
+Lemma p_term_upper f c r : is_upper c = true ->
+  p_term (S f) (c :: r) =
+  match p_tuple_name (c :: r) with
+  | Some (n, x :: r') =>
+      if x =? 91 then
+        match p_bracket_body (p_term f) r' with Some (fs, rest) => Some (FTuple (Some n) fs, rest) | None => None end
+      else match skip_ws (x :: r') with
+           | y :: _ => if y =? 40 then None else Some (FTuple (Some n) [], x :: r')
+           | [] => Some (FTuple (Some n) [], x :: r')
+           end
+  | Some (n, []) => Some (FTuple (Some n) [], [])
+  | None => None
+  end.
+Proof.
+  intros H. cbn [p_term]. replace (c =? 34) with false by cc.
+  replace (is_digit c || (c =? 45)) with false by cc. rewrite H. reflexivity.
+Qed.
+
+Lemma p_term_lower f c r : is_lower c = true ->
+  p_term (S f) (c :: r) =
+  match p_identifier (c :: r) with
+  | Some (n, x :: r') => if (x =? 91) || (x =? 46) then None else Some (FIdent n, x :: r')
+  | Some (n, []) => Some (FIdent n, [])
+  | None => None
+  end.
+Proof.
+  intros H. cbn [p_term]. replace (c =? 34) with false by cc.
+  replace (is_digit c || (c =? 45)) with false by cc.
+  replace (is_upper c) with false by cc. replace (c =? 91) with false by cc. rewrite H. reflexivity.
+Qed.
+
+Lemma p_term_digit f c r : is_digit c || (c =? 45) = true ->
+  p_term (S f) (c :: r) =
+  match p_integer (c :: r) with Some (z, rest) => Some (FInt z, rest) | None => None end.
+Proof. intros H. cbn [p_term]. replace (c =? 34) with false by cc. rewrite H. reflexivity. Qed.
+
+(* ---- atoms ---- *)
+Lemma pt_int f z rest : tfollow rest -> p_term (S f) (int_text z ++ rest) = Some (FInt z, rest).
+Proof.
+  intros Hf. pose proof (starts_int z) as Hs. pose proof (solid_int z) as [_ Hsol].
+  destruct (int_text z) as [|c s'] eqn:E; [destruct Hs|].
+  assert (Hc : is_digit c || (c =? 45) = true).
+  { unfold int_text in E. destruct (to_int_cases z) as [u [Hu [E1|E1]]]; rewrite E1 in E.
+    - pose proof (chars_digits u) as Hd. rewrite E in Hd. cbn [forallb] in Hd. lia.
+    - inversion E; subst. reflexivity. }
+  cbn [app]. rewrite (p_term_digit f c _ Hc).
+  change (c :: s' ++ rest) with ((c :: s') ++ rest). rewrite <- E.
+  rewrite (p_integer_app z rest (tfollow_intfollow _ Hf)). reflexivity.
+Qed.
+
+Lemma wf_ident_first c n : wf_ident (c :: n) = true -> is_lower c = true.
+Proof. unfold wf_ident, p_identifier. destruct (is_lower c); [reflexivity|discriminate]. Qed.
+Lemma wf_name_first c n : wf_tuple_name (c :: n) = true -> is_upper c = true.
+Proof. unfold wf_tuple_name, p_tuple_name. destruct (is_upper c); [reflexivity|discriminate]. Qed.
+
+Lemma pt_ident f n rest :
+  wf_ident n = true -> tfollow rest -> p_term (S f) (n ++ rest) = Some (FIdent n, rest).
+Proof.
+  intros Hwf Hf. destruct n as [|c n']; [discriminate|].
+  cbn [app]. rewrite (p_term_lower f c _ (wf_ident_first _ _ Hwf)).
+  change (c :: n' ++ rest) with ((c :: n') ++ rest).
+  rewrite (p_identifier_app _ rest Hwf (tfollow_idfollow _ Hf)).
+  destruct rest as [|x r]; [reflexivity|]. destruct Hf as [Hf _]. cbn [first_in] in Hf.
+  replace ((x =? 91) || (x =? 46)) with false by lia. reflexivity.
+Qed.
+
+Lemma pt_name f n rest :
+  wf_tuple_name n = true -> tfollow rest -> p_term (S f) (n ++ rest) = Some (FTuple (Some n) [], rest).
+Proof.
+  intros Hwf Hf. destruct n as [|c n']; [discriminate|].
+  cbn [app]. rewrite (p_term_upper f c _ (wf_name_first _ _ Hwf)).
+  change (c :: n' ++ rest) with ((c :: n') ++ rest).
+  rewrite (p_tuple_name_app _ rest Hwf (tfollow_word _ Hf)).
+  destruct rest as [|x r]; [reflexivity|]. destruct Hf as [Hf1 Hf2]. cbn [first_in] in Hf1.
+  replace (x =? 91) with false by lia.
+  destruct (skip_ws (x :: r)) as [|y t]; [reflexivity|].
+  replace (y =? 40) with false by lia. reflexivity.
+Qed.
+
+Lemma esc_no_triple s rest a b t :
+  misses 34 rest -> escape_single s ++ 34 :: rest = a :: b :: t -> (a =? 34) && (b =? 34) = false.
+Proof.
+  intros Hr E. destruct s as [|c s].
+  - cbn [escape_single app] in E. inversion E; subst. cbn [misses] in Hr. lia.
+  - cbn [escape_single] in E.
+    destruct (esc_single_char_spec c)
+      as [[Hc He]|[[Hc He]|[[Hc He]|[[Hc He]|[[Hc He]|[[Hc He]|[H92 [H34 [H123 He]]]]]]]]];
+      rewrite He in E; cbn [app] in E; inversion E; subst; try reflexivity.
+    replace (a =? 34) with false by lia. reflexivity.
+Qed.
+
+Lemma pt_str f s rest :
+  tfollow rest -> p_term (S f) ((34 :: escape_single s ++ [34]) ++ rest) = Some (FStr s, rest).
+Proof.
+  intros [Hf _]. cbn [app p_term]. rewrite Z.eqb_refl. rewrite <- app_assoc. cbn [app].
+  assert (Hm : misses 34 rest) by (destruct rest; [exact I|cbn [first_in] in Hf; cbn [misses]; lia]).
+  pose proof (escape_single_scan s rest) as Hscan.
+  destruct (escape_single s ++ 34 :: rest) as [|a [|b t]] eqn:E.
+  - rewrite Hscan. reflexivity.
+  - rewrite Hscan. reflexivity.
+  - rewrite (esc_no_triple s rest a b t Hm E). rewrite Hscan. reflexivity.
+Qed.
+
+(* ---- chains, fields, field lists over an abstract term parser ---- *)
+Section Complete.
+  Variable pt : list Z -> option (fterm * list Z).
+  Hypothesis pt_rb : forall rest, pt (93 :: rest) = None.
+
+  Lemma take_msp_nl i tail : stops is_msp tail -> take_while is_msp (nl i ++ tail) = (nl i, tail).
+  Proof. intros H. apply take_while_app; [apply msp_nl|exact H]. Qed.
+
+  Lemma chain_sep_stop rest : cfollow rest -> p_chain_sep rest = None.
+  Proof.
+    destruct rest as [|x r]; intros H; [reflexivity|].
+    cbn [cfollow] in H. destruct H as [E|[E|[E [i [tail [Er Ht]]]]]]; subst x.
+    - reflexivity.
+    - reflexivity.
+    - subst r. change (10 :: repeat 32 i ++ tail) with (nl i ++ tail).
+      unfold p_chain_sep.
+      rewrite take_msp_nl by (destruct tail; [exact I|subst; reflexivity]).
+      unfold nl at 2. cbn [app take_while]. replace (is_hsp 10) with false by exact eq_refl.
+      destruct tail as [|a [|b r2]]; try reflexivity.
+      subst a. reflexivity.
+  Qed.
+
+  Lemma chain_rest_stop n rest : cfollow rest -> p_chain_rest pt n rest = ([], rest).
+  Proof. intros H. destruct n; [reflexivity|]. cbn [p_chain_rest]. rewrite (chain_sep_stop _ H). reflexivity. Qed.
+
+  Lemma sep_space s : starts s -> p_chain_sep (32 :: s) = Some s.
+  Proof.
+    intros Hs. unfold p_chain_sep.
+    assert (Hst : stops is_msp s) by (rewrite <- (app_nil_r s); apply starts_stops; exact Hs).
+    change (32 :: s) with ([32] ++ s).
+    rewrite (take_while_app is_msp [32] s eq_refl Hst).
+    assert (Hh : stops is_hsp s).
+    { destruct s as [|c s']; [exact I|]. cbn [stops starts] in *. cc. }
+    rewrite (take_while_app is_hsp [32] s eq_refl Hh).
+    destruct s as [|a [|b r2]]; try reflexivity.
+    cbn [starts] in Hs. replace (a =? 126) with false by cc. reflexivity.
+  Qed.
+
+  Lemma sep_arrow i s : starts s -> p_chain_sep ((nl i ++ [126; 62; 32]) ++ s) = Some s.
+  Proof.
+    intros Hs. unfold p_chain_sep. rewrite <- app_assoc.
+    rewrite take_msp_nl by exact eq_refl.
+    unfold nl at 1. cbn [app].
+    replace ((126 =? 126) && (62 =? 62)) with true by exact eq_refl.
+    assert (Hst : stops is_msp s) by (rewrite <- (app_nil_r s); apply starts_stops; exact Hs).
+    change (32 :: s) with ([32] ++ s).
+    rewrite (take_while_app is_msp [32] s eq_refl Hst). reflexivity.
+  Qed.
+
+  Lemma csep_parse sep s : gcsep sep -> starts s -> p_chain_sep (sep ++ s) = Some s.
+  Proof. intros [E|[i E]] Hs; subst sep; [apply sep_space|apply sep_arrow]; exact Hs. Qed.
+
+  (* the conclusion of chain completeness *)
+  Definition chain_ok (t : fterm) (ts : list fterm) (s rest : list Z) : Prop :=
+    exists s2, (length ts <= length s2)%nat /\ (length s2 <= length s)%nat /\
+               pt (s ++ rest) = Some (t, s2 ++ rest) /\
+               forall n, (length ts <= n)%nat -> p_chain_rest pt n (s2 ++ rest) = (ts, rest).
+
+  Lemma chain_ok_one t s rest : pt (s ++ rest) = Some (t, rest) -> cfollow rest -> chain_ok t [] s rest.
+  Proof.
+    intros Hpt Hf. exists []. cbn [length app]. repeat split; try lia; [exact Hpt|].
+    intros n _. apply chain_rest_stop. exact Hf.
+  Qed.
+
+  Lemma chain_ok_cons t t' ts s sep s' rest :
+    pt (s ++ sep ++ s' ++ rest) = Some (t, sep ++ s' ++ rest) ->
+    gcsep sep -> starts s' -> chain_ok t' ts s' rest ->
+    chain_ok t (t' :: ts) (s ++ sep ++ s') rest.
+  Proof.
+    intros Hpt Hsep Hs' (s2 & L1 & L2 & Hpt' & Hrest).
+    assert (Lsep : (1 <= length sep)%nat).
+    { destruct Hsep as [E|[i E]]; subst sep; cbn [nl length app]; lia. }
+    exists (sep ++ s'). rewrite !app_length. cbn [length]. repeat split; try lia.
+    - rewrite <- !app_assoc. exact Hpt.
+    - intros n Hn. destruct n as [|n']; [lia|]. cbn [p_chain_rest].
+      rewrite <- app_assoc. rewrite (csep_parse sep (s' ++ rest) Hsep (starts_app _ _ Hs')).
+      rewrite Hpt'. rewrite (Hrest n') by lia. reflexivity.
+  Qed.
+
+  Lemma p_chain_complete t ts s rest : chain_ok t ts s rest -> p_chain pt (s ++ rest) = Some (t :: ts, rest).
+  Proof.
+    intros (s2 & L1 & L2 & Hpt' & Hrest). unfold p_chain. rewrite Hpt'.
+    rewrite Hrest by (rewrite app_length; lia). reflexivity.
+  Qed.
+
+  (* a plain field is not mistaken for a labelled one *)
+  Definition nolabel (s : list Z) : Prop :=
+    match p_identifier s with Some (n, c :: r) => c <> 58 | _ => True end.
+
+  Lemma p_field_plain s ts rest :
+    nolabel (s ++ rest) -> p_chain pt (s ++ rest) = Some (ts, rest) ->
+    p_field pt (s ++ rest) = Some (FField None ts, rest).
+  Proof.
+    intros Hn Hc. unfold p_field. unfold nolabel in Hn. rewrite Hc.
+    destruct (p_identifier (s ++ rest)) as [[n [|c r]]|]; try reflexivity.
+    replace (c =? 58) with false by lia. reflexivity.
+  Qed.
+
+  Lemma p_field_label n s ts rest :
+    wf_ident n = true -> starts s -> p_chain pt (s ++ rest) = Some (ts, rest) ->
+    p_field pt ((n ++ 58 :: 32 :: s) ++ rest) = Some (FField (Some n) ts, rest).
+  Proof.
+    intros Hn Hs Hc. unfold p_field. rewrite <- app_assoc. cbn [app].
+    rewrite (p_identifier_app n (58 :: 32 :: s ++ rest) Hn) by (cbn [idfollow]; split; [reflexivity|split; lia]).
+    rewrite Z.eqb_refl.
+    change (32 :: s ++ rest) with ([32] ++ (s ++ rest)).
+    rewrite (take_while_app is_msp [32] (s ++ rest) eq_refl (starts_stops _ _ Hs)).
+    rewrite Hc. reflexivity.
+  Qed.
+
+  Lemma p_field_rb rest : p_field pt (93 :: rest) = None.
+  Proof. unfold p_field, p_chain. rewrite pt_rb. reflexivity. Qed.
+
+  Lemma p_comma_hit sep s : forallb is_msp sep = true -> stops is_msp s -> p_comma (44 :: sep ++ s) = Some s.
+  Proof.
+    intros Hsep Hs. unfold p_comma. rewrite skip_ws_stop by exact eq_refl. rewrite Z.eqb_refl.
+    rewrite skip_ws_app by assumption. reflexivity.
+  Qed.
+
+  Lemma p_comma_rb w rest : forallb is_msp w = true -> p_comma (w ++ 93 :: rest) = None.
+  Proof. intros Hw. unfold p_comma. rewrite skip_ws_app; [reflexivity|exact Hw|reflexivity]. Qed.
+
+  Lemma fields_rest_stop n rest : fsfollow rest -> p_fields_rest pt n rest = ([], rest).
+  Proof.
+    intros (oc & w2 & rest' & E & Hoc & Hw). destruct n; [reflexivity|]. cbn [p_fields_rest]. subst rest.
+    destruct Hoc as [Hoc|Hoc]; subst oc; cbn [app].
+    - rewrite (p_comma_rb w2 rest' (msp_gws _ Hw)). reflexivity.
+    - rewrite (p_comma_hit w2 (93 :: rest') (msp_gws _ Hw)) by exact eq_refl.
+      rewrite p_field_rb. reflexivity.
+  Qed.
+
+  Definition fields_ok (f : ffield) (fs : list ffield) (s rest : list Z) : Prop :=
+    exists s2, (length fs <= length s2)%nat /\ (length s2 <= length s)%nat /\
+               p_field pt (s ++ rest) = Some (f, s2 ++ rest) /\
+               forall n, (length fs <= n)%nat -> p_fields_rest pt n (s2 ++ rest) = (fs, rest).
+
+  Lemma fields_ok_one f s rest : p_field pt (s ++ rest) = Some (f, rest) -> fsfollow rest -> fields_ok f [] s rest.
+  Proof.
+    intros Hpf Hf. exists []. cbn [length app]. repeat split; try lia; [exact Hpf|].
+    intros n _. apply fields_rest_stop. exact Hf.
+  Qed.
+
+  Lemma fields_ok_cons f f' fs s sep s' rest :
+    p_field pt (s ++ 44 :: sep ++ s' ++ rest) = Some (f, 44 :: sep ++ s' ++ rest) ->
+    gsep sep -> starts s' -> fields_ok f' fs s' rest ->
+    fields_ok f (f' :: fs) (s ++ 44 :: sep ++ s') rest.
+  Proof.
+    intros Hpf Hsep Hs' (s2 & L1 & L2 & Hpf' & Hrest).
+    exists (44 :: sep ++ s'). rewrite !app_length. cbn [length]. rewrite !app_length.
+    repeat split; try lia.
+    - rewrite <- app_assoc. cbn [app]. rewrite <- app_assoc. exact Hpf.
+    - intros n Hn. destruct n as [|n']; [lia|]. cbn [p_fields_rest app].
+      rewrite <- app_assoc.
+      rewrite (p_comma_hit sep (s' ++ rest) (msp_gsep _ Hsep) (starts_stops _ _ Hs')).
+      rewrite Hpf'. rewrite (Hrest n') by lia. reflexivity.
+  Qed.
+
+  Lemma bracket_body_complete f fs w1 body oc w2 rest :
+    gws w1 -> gws w2 -> (oc = [] \/ oc = [44]) -> starts body ->
+    fields_ok f fs body (oc ++ w2 ++ 93 :: rest) ->
+    p_bracket_body pt (w1 ++ body ++ oc ++ w2 ++ 93 :: rest) = Some (f :: fs, rest).
+  Proof.
+    intros Hw1 Hw2 Hoc Hsb (s2 & L1 & L2 & Hpf & Hrest).
+    unfold p_bracket_body.
+    rewrite (skip_ws_app w1 _ (msp_gws _ Hw1) (starts_stops _ _ Hsb)).
+    unfold p_fields. rewrite Hpf. rewrite Hrest by (rewrite app_length; lia).
+    destruct Hoc as [E|E]; subst oc; cbn [app].
+    - rewrite (p_comma_rb w2 rest (msp_gws _ Hw2)).
+      rewrite (skip_ws_app w2 _ (msp_gws _ Hw2)) by exact eq_refl.
+      rewrite Z.eqb_refl. reflexivity.
+    - rewrite (p_comma_hit w2 (93 :: rest) (msp_gws _ Hw2)) by exact eq_refl.
+      rewrite (skip_ws_stop (44 :: w2 ++ 93 :: rest)) by exact eq_refl.
+      rewrite (skip_ws_app w2 _ (msp_gws _ Hw2)) by exact eq_refl.
+      rewrite Z.eqb_refl. reflexivity.
+  Qed.
+End Complete.
+
+(* ---- plain fields are not mistaken for labelled ones ---- *)
+Lemma nolabel_nonlower c s : is_lower c = false -> nolabel (c :: s).
+Proof. intros H. unfold nolabel, p_identifier. rewrite H. exact I. Qed.
+
+Lemma int_first z : exists c s', int_text z = c :: s' /\ is_digit c || (c =? 45) = true.
+Proof.
+  pose proof (starts_int z) as Hs.
+  destruct (int_text z) as [|c s'] eqn:E; [destruct Hs|]. exists c, s'. split; [reflexivity|].
+  unfold int_text in E. destruct (to_int_cases z) as [u [Hu [E1|E1]]]; rewrite E1 in E.
+  - pose proof (chars_digits u) as Hd. rewrite E in Hd. cbn [forallb] in Hd. lia.
+  - inversion E; subst. reflexivity.
+Qed.
+
+Lemma gterm_nolabel t s rest : gterm t s -> tfollow rest -> nolabel (s ++ rest).
+Proof.
+  intros H Hf. destruct H as [z|n Hn|s0| |n Hn|name f fs w1 body oc w2 Hn Hw1 Hw2 Hoc Hfs].
+  - destruct (int_first z) as [c [s' [E Hc]]]. rewrite E. cbn [app]. apply nolabel_nonlower. cc.
+  - unfold nolabel. rewrite (p_identifier_app n rest Hn (tfollow_idfollow _ Hf)).
+    destruct rest as [|x r]; [exact I|]. destruct Hf as [Hf _]. cbn [first_in] in Hf. lia.
+  - cbn [app]. apply nolabel_nonlower. reflexivity.
+  - cbn [app]. apply nolabel_nonlower. reflexivity.
+  - destruct n as [|c n']; [discriminate|]. cbn [app]. apply nolabel_nonlower.
+    pose proof (wf_name_first _ _ Hn). cc.
+  - destruct name as [[|c n']|]; cbn [wf_name_opt topen] in *.
+    + discriminate.
+    + cbn [app]. apply nolabel_nonlower. pose proof (wf_name_first _ _ Hn). cc.
+    + cbn [app]. apply nolabel_nonlower. reflexivity.
+Qed.
+
+Lemma gchain_nolabel t ts s rest : gchain t ts s -> cfollow rest -> nolabel (s ++ rest).
+Proof.
+  intros H Hf. destruct H as [t s Ht|t t' ts s sep s' Ht Hsep Hc].
+  - apply (gterm_nolabel t s rest Ht). apply cfollow_tfollow. exact Hf.
+  - rewrite <- !app_assoc. apply (gterm_nolabel t s _ Ht).
+    apply tfollow_csep; [exact Hsep|]. apply (proj2 (proj2 (proj2 g_starts)) _ _ _ Hc).
+Qed.
+
+Lemma starts_fuel s fuel : starts s -> (length s <= fuel)%nat -> exists f, fuel = S f.
+Proof.
+  destruct s as [|c s]; [intros []|]. cbn [length]. intros _ H.
+  destruct fuel as [|f]; [lia|]. exists f. reflexivity.
+Qed.
+
+Lemma cfollow_comma r : cfollow (44 :: r).
+Proof. cbn [cfollow]. lia. Qed.
+
+(* ---- the mutual induction ---- *)
+Lemma g_complete :
+  (forall t s, gterm t s -> forall fuel rest, (length s <= fuel)%nat -> tfollow rest ->
+               p_term fuel (s ++ rest) = Some (t, rest)) /\
+  (forall f fs s, gfields f fs s -> forall fuel rest, (length s <= fuel)%nat -> fsfollow rest ->
+               fields_ok (p_term fuel) f fs s rest) /\
+  (forall f s, gfield f s -> forall fuel rest, (length s <= fuel)%nat -> cfollow rest ->
+               p_field (p_term fuel) (s ++ rest) = Some (f, rest)) /\
+  (forall t ts s, gchain t ts s -> forall fuel rest, (length s <= fuel)%nat -> cfollow rest ->
+               chain_ok (p_term fuel) t ts s rest).
+Proof.
+  apply g_mutind.
+  - (* int *) intros z fuel rest Hl Hf.
+    destruct (starts_fuel _ _ (starts_int z) Hl) as [f E]. subst fuel. apply pt_int. exact Hf.
+  - (* ident *) intros n Hn fuel rest Hl Hf.
+    destruct (starts_fuel _ _ (starts_ident n Hn) Hl) as [f E]. subst fuel. apply pt_ident; assumption.
+  - (* str *) intros s fuel rest Hl Hf.
+    destruct fuel as [|f]; [cbn [length] in Hl; lia|]. apply pt_str. exact Hf.
+  - (* unit *) intros fuel rest Hl Hf.
+    destruct fuel as [|f]; [cbn [length] in Hl; lia|]. cbn [app].
+    rewrite p_term_bracket. unfold p_bracket_body.
+    rewrite (skip_ws_stop (93 :: rest)) by exact eq_refl.
+    unfold p_fields. rewrite (p_field_rb _ (p_term_rbracket f)).
+    unfold p_comma. rewrite (skip_ws_stop (93 :: rest)) by exact eq_refl. reflexivity.
+  - (* name *) intros n Hn fuel rest Hl Hf.
+    destruct (starts_fuel _ _ (starts_name n Hn) Hl) as [f E]. subst fuel. apply pt_name; assumption.
+  - (* tuple *) intros name f fs w1 body oc w2 Hn Hw1 Hw2 Hoc Hfs IH fuel rest Hl Hf.
+    rewrite !app_length in Hl. cbn [length] in Hl.
+    destruct fuel as [|fu]; [lia|].
+    assert (Hbody : p_bracket_body (p_term fu) (w1 ++ body ++ oc ++ w2 ++ 93 :: rest) = Some (f :: fs, rest)).
+    { apply (bracket_body_complete (p_term fu)); try assumption.
+      - apply (proj1 (proj2 g_starts) _ _ _ Hfs).
+      - apply IH; [lia|]. exists oc, w2, rest. repeat split; assumption. }
+    rewrite <- !app_assoc. cbn [app].
+    destruct name as [n|]; cbn [topen wf_name_opt] in *.
+    + destruct n as [|c n']; [discriminate|]. rewrite <- app_assoc. cbn [app].
+      rewrite (p_term_upper fu c _ (wf_name_first _ _ Hn)).
+      change (c :: n' ++ 91 :: w1 ++ body ++ oc ++ w2 ++ 93 :: rest)
+        with ((c :: n') ++ 91 :: w1 ++ body ++ oc ++ w2 ++ 93 :: rest).
+      rewrite (p_tuple_name_app _ _ Hn) by exact eq_refl.
+      rewrite Z.eqb_refl, Hbody. reflexivity.
+    + cbn [app]. rewrite p_term_bracket, Hbody. reflexivity.
+  - (* one field *) intros f s Hf IH fuel rest Hl Hfol.
+    apply (fields_ok_one _ (p_term_rbracket fuel)); [|exact Hfol]. apply IH; [exact Hl|apply fsfollow_cfollow; exact Hfol].
+  - (* more fields *) intros f f' fs s sep s' Hf IH1 Hsep Hfs IH2 fuel rest Hl Hfol.
+    rewrite !app_length in Hl. cbn [length] in Hl. rewrite !app_length in Hl.
+    apply fields_ok_cons; [|exact Hsep|apply (proj1 (proj2 g_starts) _ _ _ Hfs)|apply IH2; [lia|exact Hfol]].
+    apply IH1; [lia|apply cfollow_comma].
+  - (* plain field *) intros t ts s Hc IH fuel rest Hl Hfol.
+    apply p_field_plain; [apply (gchain_nolabel _ _ _ _ Hc Hfol)|].
+    apply p_chain_complete. apply IH; assumption.
+  - (* labelled field *) intros n t ts s Hn Hc IH fuel rest Hl Hfol.
+    rewrite !app_length in Hl. cbn [length] in Hl.
+    apply p_field_label; [exact Hn|apply (proj2 (proj2 (proj2 g_starts)) _ _ _ Hc)|].
+    apply p_chain_complete. apply IH; [lia|exact Hfol].
+  - (* one term *) intros t s Ht IH fuel rest Hl Hfol.
+    apply chain_ok_one; [|exact Hfol]. apply IH; [exact Hl|apply cfollow_tfollow; exact Hfol].
+  - (* more terms *) intros t t' ts s sep s' Ht IH1 Hsep Hc IH2 fuel rest Hl Hfol.
+    rewrite !app_length in Hl.
+    pose proof (proj2 (proj2 (proj2 g_starts)) _ _ _ Hc) as Hs'.
+    apply chain_ok_cons; [|exact Hsep|exact Hs'|apply IH2; [lia|exact Hfol]].
+    apply IH1; [lia|]. apply tfollow_csep; assumption.
+Qed.
+
+(* S3: parser completeness for a whole program text *)
+Theorem parse_grammar t ts s : gchain t ts s -> parse_frag (s ++ [10]) = Some (t :: ts).
+Proof.
+  intros H. pose proof (proj2 (proj2 (proj2 g_starts)) _ _ _ H) as Hs.
+  unfold parse_frag. rewrite (skip_ws_stop (s ++ [10])) by (apply starts_stops; exact Hs).
+  assert (Hcf : cfollow [10]).
+  { cbn [cfollow]. right. right. split; [reflexivity|]. exists 0%nat, []. split; [reflexivity|exact I]. }
+  assert (Hl : (length s <= length (s ++ [10%Z]))%nat) by (rewrite app_length; lia).
+  pose proof (proj2 (proj2 (proj2 g_complete)) _ _ _ H _ _ Hl Hcf) as Hok.
+  rewrite (p_chain_complete _ _ _ _ _ Hok). reflexivity.
+Qed.
+
+(* ========================================================================================== *)
+(* S2b. every rendered shape of a fragment doc is in the grammar                               *)
+(* ========================================================================================== *)
+
+Section DocInd.
+  Variable P : doc -> Prop.
+  Hypothesis Hnil : P DNil.
+  Hypothesis Htext : forall s, P (DText s).
+  Hypothesis Hline : P DLine.
+  Hypothesis Hsoft : P DSoftLine.
+  Hypothesis Hhard : P DHardLine.
+  Hypothesis Hconcat : forall ds, Forall P ds -> P (DConcat ds).
+  Hypothesis Hnest : forall n d, P d -> P (DNest n d).
+  Hypothesis Hgroup : forall d b, P d -> P (DGroup d b).
+  Hypothesis Hif : forall b f, P b -> P f -> P (DIfBreak b f).
+  Hypothesis Hsfx : forall d, P d -> P (DLineSuffix d).
+  Hypothesis Hbp : P DBreakParent.
+  Fixpoint doc_ind2 (d : doc) : P d :=
+    match d with
+    | DNil => Hnil
+    | DText s => Htext s
+    | DLine => Hline
+    | DSoftLine => Hsoft
+    | DHardLine => Hhard
+    | DConcat ds =>
+        Hconcat ds ((fix go (l : list doc) : Forall P l :=
+                       match l with
+                       | [] => Forall_nil P
+                       | x :: r => Forall_cons x (doc_ind2 x) (go r)
+                       end) ds)
+    | DNest n d' => Hnest n d' (doc_ind2 d')
+    | DGroup d' b => Hgroup d' b (doc_ind2 d')
+    | DIfBreak b f => Hif b f (doc_ind2 b) (doc_ind2 f)
+    | DLineSuffix d' => Hsfx d' (doc_ind2 d')
+    | DBreakParent => Hbp
+    end.
+End DocInd.
+
+Definition field_terms (f : ffield) : list fterm := match f with FField _ v => v end.
+
+Section TermInd.
+  Variable P : fterm -> Prop.
+  Hypothesis Hint : forall z, P (FInt z).
+  Hypothesis Hident : forall n, P (FIdent n).
+  Hypothesis Hstr : forall s, P (FStr s).
+  Hypothesis Htuple : forall name fields,
+    Forall (fun f => Forall P (field_terms f)) fields -> P (FTuple name fields).
+  Fixpoint fterm_ind2 (t : fterm) : P t :=
+    match t with
+    | FInt z => Hint z
+    | FIdent n => Hident n
+    | FStr s => Hstr s
+    | FTuple name fields =>
+        Htuple name fields
+          ((fix go (fs : list ffield) : Forall (fun f => Forall P (field_terms f)) fs :=
+              match fs with
+              | [] => Forall_nil _
+              | f :: r =>
+                  Forall_cons f
+                    (match f return Forall P (field_terms f) with
+                     | FField _ v =>
+                         (fix go2 (l : list fterm) : Forall P l :=
+                            match l with
+                            | [] => Forall_nil P
+                            | x :: r' => Forall_cons x (fterm_ind2 x) (go2 r')
+                            end) v
+                     end) (go r)
+              end) fields)
+    end.
+End TermInd.
+
+(* the flat text of a suffix-free doc is one of its rendered shapes *)
+Lemma rsh_flatten_raw : forall d, suffix_free d = true -> rsh Flat d (flatten_raw d).
+Proof.
+  induction d using doc_ind2; cbn [suffix_free flatten_raw rsh]; intros Hsf; try reflexivity.
+  - exists 0%nat. reflexivity.
+  - induction H as [|x r Hx Hr IH]; [reflexivity|].
+    cbn [forallb] in Hsf. apply andb_true_iff in Hsf. destruct Hsf as [H1 H2].
+    cbn [rsh_list]. eexists _, _. split; [reflexivity|]. split; [apply Hx; exact H1|apply IH; exact H2].
+  - apply IHd. exact Hsf.
+  - exists Flat. apply IHd. exact Hsf.
+  - apply andb_true_iff in Hsf. apply IHd2. apply Hsf.
+  - discriminate.
+Qed.
+
+Lemma rsh_list_app f l1 l2 s :
+  rsh_list f (l1 ++ l2) s -> exists a b, s = a ++ b /\ rsh_list f l1 a /\ rsh_list f l2 b.
+Proof.
+  revert s. induction l1 as [|d l1 IH]; intros s H.
+  - exists [], s. repeat split. exact H.
+  - cbn [app rsh_list] in H. destruct H as (a & b & E & Hd & Hr).
+    destruct (IH _ Hr) as (a' & b' & E' & H1 & H2). subst s b.
+    exists (a ++ a'), b'. split; [apply app_assoc|]. split; [|exact H2].
+    cbn [rsh_list]. exists a, a'. repeat split; assumption.
+Qed.
+
+(* ---- unfolding term_doc ---- *)
+Definition field_doc (f : ffield) : doc :=
+  match f with
+  | FField label value =>
+      DConcat [DNil;
+               match label with
+               | Some n => DConcat [DText (n ++ [58; 32]); chain_doc value]
+               | None => chain_doc value
+               end;
+               DNil]
+  end.
+
+Lemma items_eq value :
+  (fix items (ts : list fterm) : list (fterm * doc) :=
+     match ts with [] => [] | x :: r' => (x, term_doc x) :: items r' end) value = chain_items value.
+Proof.
+  unfold chain_items. induction value as [|x v IHv]; [reflexivity|]. cbn [map]. rewrite <- IHv. reflexivity.
+Qed.
+
+Lemma term_doc_tuple name f fs :
+  term_doc (FTuple name (f :: fs)) = bracketed (topen name) [93] (map field_doc (f :: fs)).
+Proof.
+  cbn [term_doc]. unfold topen. destruct f as [label value]. cbn [map field_doc]. f_equal. f_equal.
+  induction fs as [|[l v] r IH]; [reflexivity|]. cbn [map field_doc]. rewrite <- IH. reflexivity.
+Qed.
+
+(* ---- well-formedness, unfolded ---- *)
+Definition wf_field (f : ffield) : Prop :=
+  match f with
+  | FField label value =>
+      match label with Some n => wf_ident n = true | None => True end /\
+      value <> [] /\ Forall (fun t => wf_term t = true) value
+  end.
+
+Lemma wf_tuple_inv name fields :
+  wf_term (FTuple name fields) = true -> wf_name_opt name /\ Forall wf_field fields.
+Proof.
+  cbn [wf_term]. intros H. apply andb_true_iff in H. destruct H as [Hn Hf]. split.
+  - destruct name; [exact Hn|exact I].
+  - clear Hn. induction fields as [|[label value] r IH]; [constructor|].
+    apply andb_true_iff in Hf. destruct Hf as [Hf Hr].
+    apply andb_true_iff in Hf. destruct Hf as [Hf Hv].
+    apply andb_true_iff in Hf. destruct Hf as [Hl Hne].
+    constructor; [|apply IH; exact Hr].
+    cbn [wf_field]. split; [destruct label; [exact Hl|exact I]|].
+    split; [destruct value; [discriminate|discriminate]|].
+    clear Hne. induction value as [|x v IHv]; [constructor|].
+    apply andb_true_iff in Hv. destruct Hv as [Hx Hv]. constructor; [exact Hx|apply IHv; exact Hv].
+Qed.
+
+(* ---- chains ---- *)
+Definition Q (t : fterm) : Prop :=
+  suffix_free (term_doc t) = true /\ forall m s, rsh m (term_doc t) s -> gterm t s.
+
+(* the text `flatten` puts into the head of a chain is the one-line layout of the term *)
+Lemma Q_flat t : Q t -> gterm t (flatten (term_doc t)).
+Proof.
+  intros [Hsf Hg]. pose proof (Hg Flat _ (rsh_flatten_raw _ Hsf)) as H.
+  unfold flatten. rewrite (gterm_strip _ _ H). exact H.
+Qed.
+
+Lemma biwt_sf d n : suffix_free (break_if_wider_than d n) = suffix_free d.
+Proof.
+  unfold break_if_wider_than. destruct (flat_width d n); [reflexivity|].
+  cbn [suffix_free forallb]. rewrite !andb_true_r. reflexivity.
+Qed.
+
+Lemma biwt_rsh m d n s : rsh m (break_if_wider_than d n) s -> rsh m d s.
+Proof.
+  unfold break_if_wider_than. destruct (flat_width d n); [auto|].
+  cbn [rsh rsh_list]. intros (a & b & E & Ha & (a' & b' & E' & Ha' & Hb')). subst.
+  rewrite !app_nil_r. exact Ha.
+Qed.
+
+Lemma parts_sf c : Forall Q c ->
+  forall prev, forallb suffix_free (chain_terms_parts prev (chain_items c)) = true.
+Proof.
+  induction 1 as [|t r [Hsf _] _ IH]; intros prev; [reflexivity|].
+  unfold chain_items. cbn [map chain_terms_parts]. fold (chain_items r).
+  rewrite forallb_app. cbn [forallb]. rewrite Hsf, IH.
+  destruct prev as [p|]; [destruct (is_call_ender p)|]; reflexivity.
+Qed.
+
+Lemma parts_rsh c : Forall Q c -> forall m prev s,
+  rsh_list (rsh m) (chain_terms_parts prev (chain_items c)) s ->
+  match c with
+  | [] => s = []
+  | t :: ts => exists sep s', s = sep ++ s' /\
+                              match prev with None => sep = [] | Some _ => gcsep sep end /\
+                              gchain t ts s'
+  end.
+Proof.
+  induction 1 as [|t r [_ Hg] Hr IH]; intros m prev s H; [exact H|].
+  unfold chain_items in H. cbn [map chain_terms_parts] in H. fold (chain_items r) in H.
+  destruct (rsh_list_app _ _ _ _ H) as (a & b & E & Ha & Hb).
+  cbn [rsh_list] in Hb. destruct Hb as (x & y & Eb & Hx & Hy).
+  apply Hg in Hx. specialize (IH m (Some t) y Hy).
+  assert (Hsep : match prev with None => a = [] | Some _ => gcsep a end).
+  { destruct prev as [p|]; [|exact Ha].
+    destruct (is_call_ender p).
+    - cbn [rsh_list] in Ha. destruct Ha as (a1 & b1 & E1 & H1 & (a2 & b2 & E2 & H2 & E3)).
+      destruct m; cbn [rsh] in H1, H2.
+      + subst. left. reflexivity.
+      + destruct H1 as [i Hi]. subst. right. exists i. rewrite app_nil_r. reflexivity.
+    - cbn [rsh_list rsh] in Ha. destruct Ha as (a1 & b1 & E1 & H1 & E2). subst. left. reflexivity. }
+  exists a. destruct r as [|t' ts].
+  - subst y. exists x. rewrite app_nil_r in Eb. subst. repeat split; [exact Hsep|constructor; exact Hx].
+  - destruct IH as (sep & s' & Ey & Hsep' & Hc). subst. exists (x ++ sep ++ s').
+    repeat split; [exact Hsep|]. constructor; assumption.
+Qed.
+
+Definition chain_default (c : fchain) : doc :=
+  DConcat [DNil; group (break_if_wider_than (chain_terms_doc (chain_items c)) CHAIN_SOFT_WIDTH)].
+
+Lemma default_ok c : Forall Q c ->
+  suffix_free (chain_default c) = true /\
+  forall m s, rsh m (chain_default c) s -> match c with [] => s = [] | t :: ts => gchain t ts s end.
+Proof.
+  intros HQ. split.
+  - unfold chain_default, group. cbn [suffix_free forallb]. rewrite biwt_sf.
+    unfold chain_terms_doc. cbn [suffix_free]. rewrite (parts_sf c HQ None). reflexivity.
+  - intros m s H. unfold chain_default, group in H. cbn [rsh rsh_list] in H.
+    destruct H as (a & b & E & Ha & (a' & b' & E' & (m' & Hm) & Eb')). subst.
+    apply biwt_rsh in Hm. unfold chain_terms_doc in Hm. cbn [rsh] in Hm.
+    pose proof (parts_rsh c HQ m' None a' Hm) as Hp. rewrite app_nil_r. cbn [app].
+    destruct c as [|t ts]; [exact Hp|]. destruct Hp as (sep & s' & E & Hsep & Hc). subst. exact Hc.
+Qed.
+
+Definition chain_headflat (hc : list fterm) (tl : fterm) : doc :=
+  DConcat [DNil;
+           DText (flat_map (fun td : fterm * doc => flatten (snd td) ++ [32]) (chain_items hc));
+           term_doc tl].
+
+Lemma headflat_text hc tl a : Forall Q hc -> gterm tl a ->
+  gchainL (hc ++ [tl])
+          (flat_map (fun td : fterm * doc => flatten (snd td) ++ [32]) (chain_items hc) ++ a).
+Proof.
+  induction 1 as [|t r Ht _ IH]; intros Ha.
+  - cbn [app chain_items map flat_map gchainL]. constructor. exact Ha.
+  - specialize (IH Ha). unfold chain_items. cbn [map flat_map snd app]. fold (chain_items r).
+    unfold gchainL in *. destruct (r ++ [tl]) as [|t' ts] eqn:E; [destruct r; discriminate|].
+    rewrite <- !app_assoc. apply GC_cons; [apply Q_flat; exact Ht|left; reflexivity|exact IH].
+Qed.
+
+Lemma split_last_none {A} (l : list A) : split_last l = None -> l = [].
+Proof.
+  destruct l as [|x r]; [reflexivity|]. cbn [split_last].
+  destruct (split_last r) as [[h t]|]; discriminate.
+Qed.
+
+Lemma split_last_items c head tl d :
+  split_last (chain_items c) = Some (head, (tl, d)) ->
+  exists hc, c = hc ++ [tl] /\ head = chain_items hc /\ d = term_doc tl.
+Proof.
+  revert head. induction c as [|x r IH]; intros head H; [discriminate|].
+  unfold chain_items in H. cbn [map split_last] in H. fold (chain_items r) in H.
+  destruct (split_last (chain_items r)) as [[h t]|] eqn:E.
+  - inversion H; subst. destruct (IH h eq_refl) as (hc & E1 & E2 & E3).
+    exists (x :: hc). subst. repeat split.
+  - inversion H; subst. apply split_last_none in E. unfold chain_items in E.
+    apply map_eq_nil in E. subst r. exists []. repeat split.
+Qed.
+
+Lemma chain_doc_ok c : Forall Q c -> c <> [] ->
+  suffix_free (chain_doc c) = true /\ forall m s, rsh m (chain_doc c) s -> gchainL c s.
+Proof.
+  intros HQ Hne.
+  assert (Hdef : suffix_free (chain_default c) = true /\
+                 forall m s, rsh m (chain_default c) s -> gchainL c s).
+  { destruct (default_ok c HQ) as [H1 H2]. split; [exact H1|]. intros m s H.
+    specialize (H2 m s H). destruct c; [congruence|exact H2]. }
+  unfold chain_doc, chain_doc_of. cbv zeta. fold (chain_default c).
+  destruct (split_last (chain_items c)) as [[head [tl tl_doc]]|] eqn:E; [|exact Hdef].
+  match goal with |- context [if ?b then _ else _] => destruct b end; [|exact Hdef].
+  destruct (split_last_items _ _ _ _ E) as (hc & Ec & Eh & Ed). subst.
+  apply Forall_app in HQ. destruct HQ as [HQh HQt]. inversion HQt as [|? ? [Hsf Hg] _]; subst.
+  fold (chain_headflat hc tl). split.
+  - unfold chain_headflat. cbn [suffix_free forallb]. rewrite Hsf. reflexivity.
+  - intros m s H. unfold chain_headflat in H. cbn [rsh rsh_list] in H.
+    destruct H as (a & b & E1 & Ha & (a2 & b2 & E2 & Ha2 & (a3 & b3 & E3 & Ha3 & E4))). subst.
+    cbn [app]. rewrite app_nil_r. apply headflat_text; [exact HQh|apply Hg in Ha3; exact Ha3].
+Qed.
+
+(* ---- fields and tuples ---- *)
+Definition Qf (f : ffield) : Prop :=
+  suffix_free (field_doc f) = true /\ forall m s, rsh m (field_doc f) s -> gfield f s.
+
+Lemma field_ok f : wf_field f -> Forall Q (field_terms f) -> Qf f.
+Proof.
+  destruct f as [label value]. cbn [wf_field field_terms]. intros (Hl & Hne & _) HQ.
+  destruct (chain_doc_ok value HQ Hne) as [Hsf Hg]. split.
+  - cbn [field_doc suffix_free forallb]. destruct label; cbn [suffix_free forallb]; rewrite Hsf; reflexivity.
+  - intros m s H. cbn [field_doc] in H. destruct value as [|t ts]; [congruence|].
+    destruct label as [n|]; cbn [rsh rsh_list] in H.
+    + destruct H as (a & b & E1 & Ha & (a2 & b2 & E2 &
+                      (a3 & b3 & E3 & Ha3 & (a4 & b4 & E4 & Ha4 & E5)) & (a5 & b5 & E6 & Ha5 & E7))).
+      subst. apply Hg in Ha4. cbn [gchainL] in Ha4. cbn [app]. rewrite !app_nil_r.
+      rewrite <- app_assoc. cbn [app]. apply GFd_label; assumption.
+    + destruct H as (a & b & E1 & Ha & (a2 & b2 & E2 & Ha2 & (a5 & b5 & E6 & Ha5 & E7))).
+      subst. apply Hg in Ha2. cbn [app]. rewrite !app_nil_r. apply GFd_plain. exact Ha2.
+Qed.
+
+Lemma join_docs_cons2 sep d d' ds : join_docs sep (d :: d' :: ds) = d :: sep :: join_docs sep (d' :: ds).
+Proof. reflexivity. Qed.
+
+Lemma join_rsh m : forall fs f body, Forall Qf (f :: fs) ->
+  rsh_list (rsh m) (join_docs (DConcat [DText [44]; DLine]) (map field_doc (f :: fs))) body ->
+  gfields f fs body.
+Proof.
+  induction fs as [|f' fs IH]; intros f body HQ H; inversion HQ as [|? ? [_ Hg] HQ']; subst.
+  - cbn [map join_docs rsh_list] in H. destruct H as (a & b & E & Ha & Eb). subst.
+    rewrite app_nil_r. apply GF_one. apply Hg in Ha. exact Ha.
+  - cbn [map] in H. rewrite join_docs_cons2 in H. cbn [rsh_list] in H.
+    destruct H as (a & b & E & Ha & (a2 & b2 & E2 & Hsep & Hrest)).
+    cbn [rsh rsh_list] in Hsep. destruct Hsep as (x & y & E3 & Hx & (x2 & y2 & E4 & Hy & E5)).
+    subst. apply Hg in Ha. specialize (IH f' b2 HQ' Hrest).
+    rewrite app_nil_r. rewrite <- app_assoc. cbn [app].
+    apply GF_cons; [exact Ha| |exact IH].
+    destruct m; [left; exact Hy|right; exact Hy].
+Qed.
+
+Lemma bracketed_rsh m o c items s : rsh m (bracketed o c items) s ->
+  exists m' w1 body oc w2,
+    s = o ++ w1 ++ body ++ oc ++ w2 ++ c /\ gws w1 /\ gws w2 /\ (oc = [] \/ oc = [44]) /\
+    rsh_list (rsh m') (join_docs (DConcat [DText [44]; DLine]) items) body.
+Proof.
+  unfold bracketed, group. cbn [rsh rsh_list].
+  intros (m' & a1 & b1 & E1 & H1 & (a2 & b2 & E2 & H2 & (a3 & b3 & E3 & H3 & (a4 & b4 & E4 & H4 & E5)))).
+  destruct H2 as (x1 & y1 & F1 & G1 & (x2 & y2 & F2 & G2 & (x3 & y3 & F3 & G3 & F4))).
+  subst. exists m', x1, x2, x3, a3. rewrite !app_nil_r. rewrite <- !app_assoc.
+  split; [reflexivity|].
+  destruct m'.
+  - repeat split; try (left; assumption). exact G2.
+  - repeat split; try (right; assumption). exact G2.
+Qed.
+
+Lemma join_sf sep items : suffix_free sep = true -> forallb suffix_free items = true ->
+  forallb suffix_free (join_docs sep items) = true.
+Proof.
+  intros Hs. induction items as [|d r IH]; [reflexivity|]. cbn [forallb]. intros H.
+  apply andb_true_iff in H. destruct H as [Hd Hr]. destruct r as [|d' r'].
+  - cbn [join_docs forallb]. rewrite Hd. reflexivity.
+  - rewrite join_docs_cons2. cbn [forallb]. rewrite Hd, Hs. apply IH. exact Hr.
+Qed.
+
+Lemma bracketed_sf o c items : forallb suffix_free items = true -> suffix_free (bracketed o c items) = true.
+Proof.
+  intros H. unfold bracketed, group. cbn [suffix_free forallb].
+  rewrite (join_sf (DConcat [DText [44]; DLine]) items eq_refl H). reflexivity.
+Qed.
+
+Lemma term_doc_ok : forall t, wf_term t = true -> Q t.
+Proof.
+  induction t as [z|n|s0|name fields IH] using fterm_ind2; intros Hwf.
+  - split; [reflexivity|]. intros m s H. cbn [term_doc rsh] in H. subst. constructor.
+  - split; [reflexivity|]. intros m s H. cbn [term_doc rsh] in H. subst. constructor. exact Hwf.
+  - split; [reflexivity|]. intros m s H. cbn [term_doc rsh] in H. subst. constructor.
+  - destruct (wf_tuple_inv _ _ Hwf) as [Hn Hfs]. destruct fields as [|f fs].
+    + destruct name as [n|]; (split; [reflexivity|]); intros m s H; cbn [term_doc rsh] in H; subst;
+        constructor. exact Hn.
+    + assert (HQf : Forall Qf (f :: fs)).
+      { revert IH Hfs. generalize (f :: fs). intros l IH Hfs.
+        induction IH as [|f0 r Hf0 _ IHr]; [constructor|].
+        inversion Hfs as [|? ? Hw Hws]; subst. constructor; [|apply IHr; exact Hws].
+        apply field_ok; [exact Hw|]. destruct f0 as [label value]. cbn [wf_field field_terms] in *.
+        destruct Hw as (_ & _ & Hall). rewrite Forall_forall in *. intros t Hin.
+        apply Hf0; [exact Hin|apply Hall; exact Hin]. }
+      unfold Q. rewrite term_doc_tuple. split.
+      * apply bracketed_sf. clear -HQf. induction HQf as [|f0 r [Hsf _] _ IHr]; [reflexivity|].
+        cbn [map forallb]. rewrite Hsf. exact IHr.
+      * intros m s H. destruct (bracketed_rsh _ _ _ _ _ H) as (m' & w1 & body & oc & w2 & E & Hw1 & Hw2 & Hoc & Hb).
+        subst s. apply G_tuple; try assumption. apply (join_rsh m'); assumption.
+Qed.
+
+(* ---- the program ---- *)
+Lemma wf_chain_inv c : wf_chain c = true -> c <> [] /\ Forall Q c.
+Proof.
+  unfold wf_chain. intros H. apply andb_true_iff in H. destruct H as [Hne Hall]. split.
+  - destruct c; [discriminate|discriminate].
+  - rewrite forallb_forall in Hall. apply Forall_forall. intros t Hin. apply term_doc_ok. apply Hall. exact Hin.
+Qed.
+
+(* S2: every rendered shape of the program doc is in the grammar *)
+Lemma program_doc_ok c : wf_chain c = true ->
+  suffix_free (program_doc c) = true /\ forall m s, rsh m (program_doc c) s -> gchainL c s.
+Proof.
+  intros Hwf. destruct (wf_chain_inv c Hwf) as [Hne HQ].
+  destruct (chain_doc_ok c HQ Hne) as [Hsf Hg]. split.
+  - unfold program_doc, group. cbn [suffix_free forallb]. rewrite Hsf. reflexivity.
+  - intros m s H. unfold program_doc, group in H. cbn [rsh rsh_list] in H.
+    destruct H as (a & b & E1 & (m' & a1 & b1 & F1 & (x1 & y1 & G1 & Hx1 & (x2 & y2 & G2 & Hx2 & (x3 & y3 & G3 & Hx3 & G4)))
+                                 & (a2 & b2 & F2 & Ha2 & F3)) & E2).
+    subst. cbn [app]. rewrite !app_nil_r. apply Hg in Hx2. exact Hx2.
+Qed.
+
+Lemma layout_grammar c w ts : wf_chain c = true -> layout (program_doc c) w = Some ts -> gchainL c (render ts).
+Proof.
+  intros Hwf Hl. destruct (program_doc_ok c Hwf) as [Hsf Hg].
+  apply (Hg Break). apply shape_rsh. apply (layout_shape _ w); assumption.
+Qed.
+
+(* ========================================================================================== *)
+(* S4. the round trip                                                                          *)
+(* ========================================================================================== *)
+
+Theorem frag_roundtrip : forall (c : fchain) (w : nat), wf_chain c = true ->
+  exists out, format_frag c w = Some out /\ parse_frag out = Some c.
+Proof.
+  intros c w Hwf. destruct (layout_total (program_doc c) w) as [ts Hts].
+  pose proof (layout_grammar c w ts Hwf Hts) as Hg.
+  unfold format_frag, print. rewrite Hts. cbn [option_map].
+  eexists. split; [reflexivity|].
+  destruct c as [|t ts']; [destruct Hg|]. cbn [gchainL] in Hg.
+  rewrite (gchain_strip _ _ _ Hg). apply parse_grammar. exact Hg.
+Qed.
+
+Theorem frag_format_fixpoint : forall c w out, wf_chain c = true -> format_frag c w = Some out ->
+  exists c', parse_frag out = Some c' /\ format_frag c' w = Some out.
+Proof.
+  intros c w out Hwf Hf. destruct (frag_roundtrip c w Hwf) as [out' [Hf' Hp]].
+  rewrite Hf in Hf'. inversion Hf'; subst out'. exists c. split; assumption.
+Qed.
+
+(* ========================================================================================== *)
+(* the parser only produces well-formed chains                                                 *)
+(* ========================================================================================== *)
+
+Lemma p_identifier_wf s n r : p_identifier s = Some (n, r) -> wf_ident n = true.
+Proof.
+  unfold p_identifier. destruct s as [|c r0]; [discriminate|].
+  destruct (is_lower c) eqn:Hc; [|discriminate].
+  destruct (take_while is_word r0) as [body r1] eqn:Etw.
+  destruct (opt_char 63 r1) as [q r2] eqn:Eq.
+  destruct (opt_char 33 r2) as [b r3] eqn:Eb.
+  intros H. inversion H; subst.
+  destruct (take_while_spec _ _ _ _ Etw) as [_ [Hbody _]].
+  destruct (opt_char_spec _ _ _ _ Eq) as [_ Hq].
+  destruct (opt_char_spec _ _ _ _ Eb) as [_ Hb].
+  unfold wf_ident, p_identifier. rewrite Hc.
+  assert (Hst : stops is_word (q ++ b))
+    by (destruct Hq as [Hq|Hq]; destruct Hb as [Hb|Hb]; subst q b; exact eq_refl || exact I).
+  rewrite (take_while_app is_word body (q ++ b) Hbody Hst).
+  destruct Hq as [Hq|Hq]; destruct Hb as [Hb|Hb]; subst q b; reflexivity.
+Qed.
+
+Lemma p_tuple_name_wf s n r : p_tuple_name s = Some (n, r) -> wf_tuple_name n = true.
+Proof.
+  unfold p_tuple_name. destruct s as [|c r0]; [discriminate|].
+  destruct (is_upper c) eqn:Hc; [|discriminate].
+  destruct (take_while is_word r0) as [body r1] eqn:Etw.
+  intros H. inversion H; subst.
+  destruct (take_while_spec _ _ _ _ Etw) as [_ [Hbody _]].
+  unfold wf_tuple_name, p_tuple_name. rewrite Hc.
+  pose proof (take_while_app is_word body [] Hbody I) as E. rewrite app_nil_r in E. rewrite E. reflexivity.
+Qed.
+
+Lemma wf_tuple_intro name fields :
+  wf_name_opt name -> Forall wf_field fields -> wf_term (FTuple name fields) = true.
+Proof.
+  intros Hn Hf. cbn [wf_term]. apply andb_true_iff. split.
+  - destruct name; [exact Hn|reflexivity].
+  - induction Hf as [|[label value] r (Hl & Hne & Hall) _ IH]; [reflexivity|].
+    rewrite IH, andb_true_r. apply andb_true_iff. split.
+    + apply andb_true_iff. split; [destruct label; [exact Hl|reflexivity]|].
+      destruct value; [congruence|reflexivity].
+    + clear Hne. induction Hall as [|x v Hx _ IHv]; [reflexivity|]. rewrite Hx, IHv. reflexivity.
+Qed.
+
+Section Sound.
+  Variable pt : list Z -> option (fterm * list Z).
+  Hypothesis pt_wf : forall s t r, pt s = Some (t, r) -> wf_term t = true.
+
+  Lemma p_chain_rest_wf : forall n s ts r,
+    p_chain_rest pt n s = (ts, r) -> Forall (fun t => wf_term t = true) ts.
+  Proof.
+    induction n as [|n IH]; intros s ts r H; cbn [p_chain_rest] in H.
+    - inversion H; subst. constructor.
+    - destruct (p_chain_sep s) as [r1|]; [|inversion H; subst; constructor].
+      destruct (pt r1) as [[t r2]|] eqn:Ept; [|inversion H; subst; constructor].
+      destruct (p_chain_rest pt n r2) as [ts' r3] eqn:Er. inversion H; subst.
+      constructor; [apply (pt_wf _ _ _ Ept)|apply (IH _ _ _ Er)].
+  Qed.
+
+  Lemma p_chain_wf s ts r : p_chain pt s = Some (ts, r) ->
+    ts <> [] /\ Forall (fun t => wf_term t = true) ts.
+  Proof.
+    unfold p_chain. destruct (pt s) as [[t r1]|] eqn:Ept; [|discriminate].
+    destruct (p_chain_rest pt (length r1) r1) as [ts' r2] eqn:Er. intros H. inversion H; subst.
+    split; [discriminate|]. constructor; [apply (pt_wf _ _ _ Ept)|apply (p_chain_rest_wf _ _ _ _ Er)].
+  Qed.
+
+  Lemma p_field_wf s f r : p_field pt s = Some (f, r) -> wf_field f.
+  Proof.
+    unfold p_field. intros H.
+    assert (Hplain : match p_chain pt s with Some (ts, r0) => Some (FField None ts, r0) | None => None end
+                     = Some (f, r) -> wf_field f).
+    { destruct (p_chain pt s) as [[ts r0]|] eqn:Ec; [|discriminate]. intros H0. inversion H0; subst.
+      destruct (p_chain_wf _ _ _ Ec) as [Hne Hall]. cbn [wf_field]. repeat split; assumption. }
+    destruct (p_identifier s) as [[n [|c r0]]|] eqn:Ei; try (apply Hplain; exact H).
+    destruct (c =? 58); [|apply Hplain; exact H].
+    destruct (take_while is_msp r0) as [w r1]. destruct w as [|w0 w]; [apply Hplain; exact H|].
+    destruct (p_chain pt r1) as [[ts r2]|] eqn:Ec; [|apply Hplain; exact H].
+    inversion H; subst. destruct (p_chain_wf _ _ _ Ec) as [Hne Hall].
+    cbn [wf_field]. repeat split; try assumption. apply (p_identifier_wf _ _ _ Ei).
+  Qed.
+
+  Lemma p_fields_rest_wf : forall n s fs r, p_fields_rest pt n s = (fs, r) -> Forall wf_field fs.
+  Proof.
+    induction n as [|n IH]; intros s fs r H; cbn [p_fields_rest] in H.
+    - inversion H; subst. constructor.
+    - destruct (p_comma s) as [r1|]; [|inversion H; subst; constructor].
+      destruct (p_field pt r1) as [[f r2]|] eqn:Ef; [|inversion H; subst; constructor].
+      destruct (p_fields_rest pt n r2) as [fs' r3] eqn:Er. inversion H; subst.
+      constructor; [apply (p_field_wf _ _ _ Ef)|apply (IH _ _ _ Er)].
+  Qed.
+
+  Lemma p_fields_wf s fs r : p_fields pt s = (fs, r) -> Forall wf_field fs.
+  Proof.
+    unfold p_fields.
+    assert (Hfs : forall fs0 r0,
+      match p_field pt s with
+      | Some (f, r1) => let (fs1, r') := p_fields_rest pt (length r1) r1 in (f :: fs1, r')
+      | None => ([], s)
+      end = (fs0, r0) -> Forall wf_field fs0).
+    { intros fs0 r0. destruct (p_field pt s) as [[f r1]|] eqn:Ef.
+      - destruct (p_fields_rest pt (length r1) r1) as [fs1 r'] eqn:Er. intros H. inversion H; subst.
+        constructor; [apply (p_field_wf _ _ _ Ef)|apply (p_fields_rest_wf _ _ _ _ Er)].
+      - intros H. inversion H; subst. constructor. }
+    destruct (match p_field pt s with
+              | Some (f, r1) => let (fs1, r') := p_fields_rest pt (length r1) r1 in (f :: fs1, r')
+              | None => ([], s)
+              end) as [fs0 r0] eqn:E.
+    specialize (Hfs fs0 r0 eq_refl).
+    destruct (p_comma r0); intros H; inversion H; subst; exact Hfs.
+  Qed.
+
+  Lemma p_bracket_body_wf s fs r : p_bracket_body pt s = Some (fs, r) -> Forall wf_field fs.
+  Proof.
+    unfold p_bracket_body. destruct (p_fields pt (skip_ws s)) as [fs0 r0] eqn:E.
+    destruct (skip_ws r0) as [|c r']; [discriminate|]. destruct (c =? 93); [|discriminate].
+    intros H. inversion H; subst. apply (p_fields_wf _ _ _ E).
+  Qed.
+End Sound.
+
+Lemma p_term_wf : forall fuel s t r, p_term fuel s = Some (t, r) -> wf_term t = true.
+Proof.
+  induction fuel as [|f IH]; intros s t r H; [discriminate|].
+  cbn [p_term] in H. destruct s as [|c r0]; [discriminate|].
+  destruct (c =? 34).
+  { repeat (match type of H with
+            | context [if ?b then _ else _] => destruct b
+            | context [match ?x with _ => _ end] => destruct x
+            end; try discriminate); inversion H; reflexivity. }
+  destruct (is_digit c || (c =? 45)).
+  { destruct (p_integer (c :: r0)) as [[z rest]|]; [|discriminate]. inversion H; reflexivity. }
+  destruct (is_upper c).
+  { destruct (p_tuple_name (c :: r0)) as [[n [|x r']]|] eqn:En; [| |discriminate].
+    - inversion H; subst. apply wf_tuple_intro; [apply (p_tuple_name_wf _ _ _ En)|constructor].
+    - destruct (x =? 91).
+      + destruct (p_bracket_body (p_term f) r') as [[fs rest]|] eqn:Eb; [|discriminate].
+        inversion H; subst.
+        apply wf_tuple_intro; [apply (p_tuple_name_wf _ _ _ En)|apply (p_bracket_body_wf _ IH _ _ _ Eb)].
+      + assert (Hok : wf_term (FTuple (Some n) []) = true)
+          by (apply wf_tuple_intro; [apply (p_tuple_name_wf _ _ _ En)|constructor]).
+        destruct (skip_ws (x :: r')) as [|y yr]; [inversion H; subst; exact Hok|].
+        destruct (y =? 40); [discriminate|]. inversion H; subst; exact Hok. }
+  destruct (c =? 91).
+  { destruct (p_bracket_body (p_term f) r0) as [[fs rest]|] eqn:Eb; [|discriminate].
+    inversion H; subst. apply wf_tuple_intro; [exact I|apply (p_bracket_body_wf _ IH _ _ _ Eb)]. }
+  destruct (is_lower c); [|discriminate].
+  destruct (p_identifier (c :: r0)) as [[n [|x r']]|] eqn:En; [| |discriminate].
+  - inversion H; subst. cbn [wf_term]. apply (p_identifier_wf _ _ _ En).
+  - destruct ((x =? 91) || (x =? 46)); [discriminate|]. inversion H; subst.
+    cbn [wf_term]. apply (p_identifier_wf _ _ _ En).
+Qed.
+
+Theorem parse_frag_wf : forall s c, parse_frag s = Some c -> wf_chain c = true.
+Proof.
+  intros s c. unfold parse_frag.
+  destruct (p_chain (p_term (length (skip_ws s))) (skip_ws s)) as [[ts r]|] eqn:E; [|discriminate].
+  destruct (skip_ws r); [|discriminate]. intros H. inversion H; subst.
+  destruct (p_chain_wf _ (p_term_wf _) _ _ _ E) as [Hne Hall].
+  unfold wf_chain. apply andb_true_iff. split; [destruct c; [congruence|reflexivity]|].
+  apply forallb_forall. rewrite Forall_forall in Hall. exact Hall.
+Qed.
+
+Theorem frag_source_fixpoint : forall s c w out, parse_frag s = Some c -> format_frag c w = Some out ->
+  exists c', parse_frag out = Some c' /\ format_frag c' w = Some out.
+Proof.
+  intros s c w out Hp Hf. apply (frag_format_fixpoint c w out); [apply (parse_frag_wf s); exact Hp|exact Hf].
+Qed.
+
+(* ========================================================================================== *)
+(* non-vacuity                                                                                 *)
+(* ========================================================================================== *)
+
+(* qqq…q (60 characters)  P[x: -5, ''\''\{'' y? zzzzzzzz, [1, [2]]]   (the string is the two characters '' and { ) *)
+Definition ex_long : list Z := repeat 113 60.
+Definition ex_chain : fchain :=
+  [FIdent ex_long;
+   FTuple (Some [80])
+     [FField (Some [120]) [FInt (-5)];
+      FField None [FStr [34; 123]; FIdent [121; 63]; FIdent (repeat 122 8)];
+      FField None [FTuple None [FField None [FInt 1];
+                                FField None [FTuple None [FField None [FInt 2]]]]]]].
+
+Example ex_chain_wf : wf_chain ex_chain = true.
+Proof. vm_compute. reflexivity. Qed.
+
+(* width 100: one line (99 characters and the final LF) *)
+Definition ex_wide : list Z :=
+  ex_long ++ [32; 80; 91; 120; 58; 32; 45; 53; 44; 32; 34; 92; 34; 92; 123; 34; 32; 121; 63; 32]
+          ++ repeat 122 8 ++ [44; 32; 91; 49; 44; 32; 91; 50; 93; 93; 93; 10].
+Example ex_chain_wide : format_frag ex_chain 100 = Some ex_wide.
+Proof. vm_compute. reflexivity. Qed.
+Example ex_chain_wide_one_line : length ex_wide = 100%nat /\ count_occ Z.eq_dec ex_wide 10 = 1%nat.
+Proof. vm_compute. split; reflexivity. Qed.
+Example ex_chain_wide_parse : parse_frag ex_wide = Some ex_chain.
+Proof. vm_compute. reflexivity. Qed.
+
+(* width 20: the tuple is broken (trailing comma before the closing bracket), and the field chain
+   ''\''\{'' y? zzzzzzzz is broken after the call-ending y? with a `~> ` continuation:
+     qqq…q P[
+       x: -5,
+       ''\''\{'' y?
+       ~> zzzzzzzz,
+       [1, [2]],
+     ]                                                                                         *)
+Definition ex_narrow : list Z :=
+  ex_long ++ [32; 80; 91; 10; 32; 32; 120; 58; 32; 45; 53; 44; 10;
+              32; 32; 34; 92; 34; 92; 123; 34; 32; 121; 63; 10;
+              32; 32; 126; 62; 32] ++ repeat 122 8 ++ [44; 10;
+              32; 32; 91; 49; 44; 32; 91; 50; 93; 93; 44; 10;
+              93; 10].
+Example ex_chain_narrow : format_frag ex_chain 20 = Some ex_narrow.
+Proof. vm_compute. reflexivity. Qed.
+Example ex_chain_narrow_lines : count_occ Z.eq_dec ex_narrow 10 = 6%nat.
+Proof. vm_compute. reflexivity. Qed.
+Example ex_chain_narrow_parse : parse_frag ex_narrow = Some ex_chain.
+Proof. vm_compute. reflexivity. Qed.
+
+(* the theorem instantiated (not by computation) *)
+Example ex_chain_roundtrip : forall w, exists out, format_frag ex_chain w = Some out /\ parse_frag out = Some ex_chain.
+Proof. intros w. apply frag_roundtrip. exact ex_chain_wf. Qed.
+
+(* the grammar is not only the formatter's image: a source with other spacing is accepted and re-formatted to a
+   fixpoint (frag_source_fixpoint): `P[ x:  1 ,y ]` *)
+Example ex_source :
+  parse_frag [80; 91; 32; 120; 58; 32; 32; 49; 32; 44; 121; 32; 93]
+    = Some [FTuple (Some [80]) [FField (Some [120]) [FInt 1]; FField None [FIdent [121]]]] /\
+  format_frag [FTuple (Some [80]) [FField (Some [120]) [FInt 1]; FField None [FIdent [121]]]] 100
+    = Some [80; 91; 120; 58; 32; 49; 44; 32; 121; 93; 10].
+Proof. vm_compute. split; reflexivity. Qed.
+
+Print Assumptions frag_roundtrip.
+Print Assumptions frag_format_fixpoint.
+Print Assumptions parse_frag_wf.
+Print Assumptions frag_source_fixpoint.
+Print Assumptions layout_shape.
